@@ -497,6 +497,26 @@ func (x *Exec) specCallExpr(env *SpecEnv, e *SExpr) Value {
 			return IntV{Ite(Ge(a, b), a, b)}
 		case "streq":
 			return BoolV{x.strEq(x.specEval(env, e.Args[0]).(StrV), x.specEval(env, e.Args[1]).(StrV))}
+		case "sid":
+			return IntV{x.strID(env.st, x.specEval(env, e.Args[0]).(StrV))}
+		case "tolower", "trimspace", "canonkey":
+			return IntV{App("strfn_"+name, SInt, x.asTerm(x.specEval(env, e.Args[0])))}
+		case "hasprefix":
+			return BoolV{App("strfn_hasprefix", SBool, x.asTerm(x.specEval(env, e.Args[0])), x.strID(env.st, x.specEval(env, e.Args[1]).(StrV)))}
+		case "cutprefix":
+			return IntV{App("strfn_cutprefix", SInt, x.asTerm(x.specEval(env, e.Args[0])), x.strID(env.st, x.specEval(env, e.Args[1]).(StrV)))}
+		case "decval":
+			return IntV{App("decval", SInt, x.asTerm(x.specEval(env, e.Args[0])))}
+		case "parseok64":
+			return BoolV{App("parseok_s64", SBool, x.asTerm(x.specEval(env, e.Args[0])))}
+		case "splitlen":
+			return IntV{App("strfn_splitlen", SInt, x.asTerm(x.specEval(env, e.Args[0])), x.strID(env.st, x.specEval(env, e.Args[1]).(StrV)))}
+		case "splitat":
+			return IntV{App("strfn_splitat", SInt, x.asTerm(x.specEval(env, e.Args[0])), x.strID(env.st, x.specEval(env, e.Args[1]).(StrV)), x.asTerm(x.specEval(env, e.Args[2])))}
+		case "timeparse_ok":
+			return BoolV{App("timeparse_ok", SBool, x.asTerm(x.specEval(env, e.Args[0])))}
+		case "timeparse_val":
+			return IntV{App("timeparse_val", SInt, x.asTerm(x.specEval(env, e.Args[0])))}
 		case "keyid":
 			return IntV{x.keyTerm(env.st, x.specEval(env, e.Args[0]))}
 		case "allocated":
